@@ -727,7 +727,12 @@ func c06read(m *meta.Module, f c06fact) (got string, ok bool) {
 		}
 		return "<no Status()>", true
 	case "when":
+		// the node's own condition: the ones it has from a uses, an augment, its choice or its case come before it in
+		// the chain and are marked as evaluated where the node lives
 		w := n.(meta.HasWhen).When()
+		for w != nil && w.ParentContext() {
+			w = w.And()
+		}
 		if w == nil {
 			return "<nil>", true
 		}
@@ -1135,6 +1140,29 @@ func c06probes(c *core.Ctx) {
 					bad = append(bad, path+" missing")
 				} else if got := whenChain(d); got != w {
 					bad = append(bad, fmt.Sprintf("%s reads when %q, written %q", path, got, w))
+				}
+			}
+			sort.Strings(bad)
+			return strings.Join(bad, "; ")
+		}, ""})
+	probes = append(probes, probe{"when on a choice, on a case, on a uses of a grouping with a choice, and on nested uses", hdr +
+		"  grouping g2 { leaf inner { when \"../q\"; type string; } }\n  grouping g1 { leaf mid { type string; } uses g2 { when \"b = 1\"; } }\n" +
+		"  grouping gc { choice ch { case k1 { leaf c1 { type string; } } } }\n" +
+		"  container c1 { leaf a { type int32; } leaf b { type int32; } leaf q { type string; } uses g1 { when \"a = 1\"; } uses gc { when \"a = 2\"; } }\n" +
+		"  container c2 { leaf p { type string; } choice dk { when \"p = 'c'\"; case d1 { when \"p != 'k'\"; leaf y1 { when \"../p\"; type string; } container yc { leaf y2 { when \"../../p\"; type string; } } } leaf y3 { type string; } } }\n}",
+		func(m *meta.Module, err error) string {
+			if err != nil {
+				return "load fails: " + err.Error()
+			}
+			want := map[string]string{"c1/mid": "a = 1", "c1/inner": "a = 1 && b = 1 && ../q", "c1/c1": "a = 2",
+				"c2/y1": "p = 'c' && p != 'k' && ../p", "c2/yc": "p = 'c' && p != 'k'", "c2/yc/y2": "../../p", "c2/y3": "p = 'c'"}
+			var bad []string
+			for path, w := range want {
+				d := meta.Find(m, path)
+				if d == nil {
+					bad = append(bad, path+" missing")
+				} else if got := whenChain(d); got != w {
+					bad = append(bad, fmt.Sprintf("%s reads when %q, the conditions that apply to it are %q", path, got, w))
 				}
 			}
 			sort.Strings(bad)
